@@ -11,6 +11,7 @@ import (
 	"golang.org/x/tools/go/packages"
 
 	"rocheck/internal/check"
+	"rocheck/internal/load"
 	"rocheck/internal/model"
 )
 
@@ -710,13 +711,89 @@ func ruleDeadEmission() check.Rule {
 	}
 }
 
+// CONTEXTLESS-DELEGATES: Next/Error/Complete/Subscribe/Connect are the WithContext forms with a background context.
+func ruleContextlessDelegates() check.Rule {
+	return check.Rule{
+		Name: "CONTEXTLESS-DELEGATES",
+		Doc:  "on every type of package ro that has both forms, the context-less method (Next, Error, Complete, Subscribe, Connect) consists of one call of its WithContext counterpart on the same receiver, passing a fresh background context followed by its own parameters in order",
+		Run: func(c *check.Ctx) {
+			m := c.M
+			p := m.Obj.Ro
+			info := p.TypesInfo
+			n := 0
+			for _, f := range p.Syntax {
+				for _, d := range f.Decls {
+					fd, ok := d.(*ast.FuncDecl)
+					if !ok || fd.Recv == nil || fd.Body == nil || len(fd.Recv.List) != 1 {
+						continue
+					}
+					switch fd.Name.Name {
+					case "Next", "Error", "Complete", "Subscribe", "Connect":
+					default:
+						continue
+					}
+					tname := load.RecvTypeName(fd.Recv.List[0].Type)
+					if check.IsControlName(tname) {
+						continue
+					}
+					want := fd.Name.Name + "WithContext"
+					has := false
+					for _, o := range methodsOf(p, tname) {
+						if o.Name.Name == want {
+							has = true
+						}
+					}
+					if !has {
+						continue
+					}
+					n++
+					key := "ro." + tname + "." + fd.Name.Name + "/delegates"
+					rv := recvObj(info, fd)
+					params := model.FlattenParams(info, fd.Type.Params)
+					ok2 := false
+					if len(fd.Body.List) == 1 {
+						var call *ast.CallExpr
+						switch st := fd.Body.List[0].(type) {
+						case *ast.ExprStmt:
+							call, _ = st.X.(*ast.CallExpr)
+						case *ast.ReturnStmt:
+							if len(st.Results) == 1 {
+								call, _ = ast.Unparen(st.Results[0]).(*ast.CallExpr)
+							}
+						}
+						if call != nil {
+							if sel, isSel := ast.Unparen(call.Fun).(*ast.SelectorExpr); isSel && sel.Sel.Name == want {
+								if id, isID := ast.Unparen(sel.X).(*ast.Ident); isID && objOf(info, id) == types.Object(rv) && len(call.Args) == len(params)+1 && isFreshCtx(info, call.Args[0]) != "" {
+									ok2 = true
+									for i, pv := range params {
+										aid, isID := ast.Unparen(call.Args[i+1]).(*ast.Ident)
+										if !isID || objOf(info, aid) != types.Object(pv) {
+											ok2 = false
+										}
+									}
+								}
+							}
+						}
+					}
+					if ok2 {
+						c.OK(key, fd.Pos(), "delegates to %s with a background context and its own parameters", want)
+					} else {
+						c.Violation(key, fd.Pos(), "%s.%s is not the plain delegation to %s(context.Background(), <its parameters>): the context-less form behaves differently from the context-aware one", tname, fd.Name.Name, want)
+					}
+				}
+			}
+			c.Inc("contextless_methods", n)
+		},
+	}
+}
+
 func C04() *check.Property {
 	return &check.Property{
 		ID:       "C04",
 		Title:    "Each operator computes its documented function of the input sequence",
 		Patterns: cat(CorePatterns, PluginPkgs, []string{PromPkg}, RatePkgs),
 		Scope:    []string{ro},
-		Rules:    []check.Rule{ruleAdapter(), ruleAlias(), rulePipe(), ruleNoPostDeliveryMutation(), ruleDeadEmission(), ruleStateLevel(), ruleTerminalPropagation(), ruleObservableParamUsed()},
+		Rules:    []check.Rule{ruleAdapter(), ruleAlias(), rulePipe(), ruleNoPostDeliveryMutation(), ruleDeadEmission(), ruleStateLevel(), ruleTerminalPropagation(), ruleObservableParamUsed(), ruleContextlessDelegates()},
 		Explanation: "Narrow structural claim. The values each operator computes are NOT decided (no executable specification of ~150 operators is derivable from the source). Four clauses of the property are visible in the code's shape and are decided: " +
 			"(ADAPTER) plain / indexed / context-aware variants that delegate through a literal are pure adapters — user function called once, only the adapter's own parameters passed, the right context returned — hence observationally identical to the base form; " +
 			"(ALIAS) aliases forward every parameter exactly once; (PIPE) the 50 typed PipeN/PipeOpN apply their operators in order, so a chain is the composition of its parts; " +
